@@ -106,6 +106,16 @@ CLAIMED = {
                      'lattice is rebuilt from its dict and probed at interiors, corners, edges and outside points.',
                 note='Equality is NaN-aware with tuple == list; producers that raise for reasons outside C18 (paired T/W '
                      'preconditions, scipy API) yield no result and are counted.'),
+    'C20': dict(engine='permsim', design='4/C20',
+                technique='deterministic simulation with reordering faults: permuted-delivery twin worlds (event rows, synthetic '
+                          'catalog order in memory and in the forecast file, region cells with rates) executed from the same RNG state',
+                text='Re-ordering is the one transport fault inside a listed property. For every base world from engine A or B a '
+                     'twin with one delivery channel permuted by the run PRNG is executed under the same recorded RNG state: '
+                     'observed statistics and analytic quantiles must agree to rounding, simulation-free distributions as sorted '
+                     'multisets, and with a fixed seed a permutation of the observed events must leave simulation-based results '
+                     'and the consumed draw stream bit-for-bit identical.',
+                note='Rounding = relative 1e-9 (1e-7 through scipy cdfs); w_test cannot run with the installed scipy and is '
+                     'not exercised; worlds where both orders raise are outside the property and counted.'),
 }
 
 NOT_APPLICABLE = {
@@ -121,8 +131,7 @@ NOT_APPLICABLE = {
     'C19': 'each reader is a pure function of the file bytes; no clock, time zone or shared state is consulted',
 }
 
-PENDING = {p: 'not claimed yet: the simulator engine for this property is still under construction (DESIGN.md section 10); it is a simulation target and will be claimed when its check exists'
-           for p in ('C20',)}
+PENDING = {}
 
 
 def main():
